@@ -167,4 +167,64 @@ def valueToRaw (v : Variant) (r : Rec) (value : Rat) : Outcome Int :=
     let raw := encodeSigned r.fmt neg raw
     if raw > 0xff then .pyError "ValueError" else .ok raw
 
+/-! ### histories on ONE record object
+
+The record object of the Python is mutable: its attributes are assigned by `_from_data` (decoding) and may be
+reassigned at any time afterwards; the conversions are methods of that object.  The model of the object IS the
+tuple of the six attributes the conversions read (`Rec`): it has no other conversion-relevant state, in
+particular nothing computed at decode time and kept.  That modelling decision is tied by the correspondence run
+(record histories of harness/props/c17.py, driver op `hist`): construction path x reassignment of every
+attribute x re-decoding x interleaved conversions on one object of the real code. -/
+
+/-- The attributes the conversions read. -/
+inductive Field where
+  | fmt | lin | m | b | k1 | k2
+  deriving Repr, DecidableEq
+
+/-- `record.<field> = v` (analog_data_format / linearization are naturals in the model). -/
+def Rec.set (r : Rec) : Field → Int → Rec
+  | .fmt, v => { r with fmt := v.toNat }
+  | .lin, v => { r with lin := v.toNat }
+  | .m, v => { r with m := v }
+  | .b, v => { r with b := v }
+  | .k1, v => { r with k1 := v }
+  | .k2, v => { r with k2 := v }
+
+/-- One operation on the record object. -/
+inductive Step where
+  /-- `record.<field> = v` -/
+  | set (f : Field) (v : Int)
+  /-- assignment of an attribute the conversions do not read (tolerance, accuracy, thresholds, …) -/
+  | other
+  /-- `record._from_data(bytes)`: every attribute is replaced by what the bytes say -/
+  | redecode (r : Rec)
+  /-- `record.convert_sensor_raw_to_value(raw)` -/
+  | forward (raw : Option Nat)
+  /-- `record.convert_sensor_value_to_raw(value)` -/
+  | inverse (value : Rat)
+  deriving Repr
+
+/-- What a conversion step returns. -/
+inductive Out where
+  | value (o : Option (Outcome Rat))
+  | raw (o : Outcome Int)
+
+/-- The attributes after a sequence of operations. -/
+def stateAfter : Rec → List Step → Rec
+  | r, [] => r
+  | r, .set f v :: t => stateAfter (r.set f v) t
+  | r, .other :: t => stateAfter r t
+  | _, .redecode r' :: t => stateAfter r' t
+  | r, .forward _ :: t => stateAfter r t
+  | r, .inverse _ :: t => stateAfter r t
+
+/-- The results of the conversion steps of a history, in order. -/
+def runHistory (F : Spec.Sensor.Fns) (v : Variant) : Rec → List Step → List Out
+  | _, [] => []
+  | r, .set f x :: t => runHistory F v (r.set f x) t
+  | r, .other :: t => runHistory F v r t
+  | _, .redecode r' :: t => runHistory F v r' t
+  | r, .forward raw :: t => .value (convert F r raw) :: runHistory F v r t
+  | r, .inverse y :: t => .raw (valueToRaw v r y) :: runHistory F v r t
+
 end PyIpmi.Sensor
